@@ -299,8 +299,17 @@ func (c *Case) Run(plz, scratch string, id int, limit time.Duration) (*Result, e
 			}
 		}
 	case <-time.After(limit):
+		// ask the Go runtime for a goroutine dump first (it goes to the captured output), then kill the group
+		syscall.Kill(cmd.Process.Pid, syscall.SIGQUIT)
+		select {
+		case <-done:
+		case <-time.After(3 * time.Second):
+		}
 		syscall.Kill(-cmd.Process.Pid, syscall.SIGKILL)
-		<-done
+		select {
+		case <-done:
+		case <-time.After(5 * time.Second):
+		}
 		res.RC = 124
 	}
 	res.Wall = time.Since(start)
